@@ -285,3 +285,115 @@ Proof.
         intros H. inversion H. exfalso. eapply validate_not_oob; eauto.
       * intros K. apply dense_bounds in K. congruence.
 Qed.
+
+(* ------------------------------------------------------------------ creation, clearing, growth *)
+Definition default_of (t : ty) (d : option comp) : comp := match d with Some c => c | None => type_default t end.
+
+Lemma map_repeat {A B} (f : A -> B) x n : map f (repeat x n) = repeat (f x) n.
+Proof. induction n; simpl; congruence. Qed.
+
+Lemma create_laws s a t k dense d s' :
+  inv s -> 1 <= k -> step s (Create a t k dense d) = (s', OOk) ->
+  exists at', lookup a (attrs s') = Some at' /\ aty at' = t /\ asz at' = k /\
+              default_row (hp s') at' = repeat (cast t (default_of t d)) (Z.to_nat k) /\
+              (forall j, 0 <= j < sn s -> rd s' a j = Some (default_row (hp s') at')) /\
+              (forall b j, b <> a -> rd s' b j = rd s b j) /\ sn s' = sn s.
+Proof.
+  intros Hi Hk E. pose proof (inv_step s (Create a t k dense d) Hi Hk) as Hi'. rewrite E in Hi'. simpl in Hi'.
+  unfold step in E. simpl in E. apply inv_tick in Hi.
+  assert (RT : forall b j, rd (tick s) b j = rd s b j) by reflexivity.
+  assert (NT : sn (tick s) = sn s) by reflexivity.
+  setoid_rewrite <- RT. rewrite <- NT. clear RT NT. set (u := tick s) in *. clearbody u. clear s.
+  unfold do_create in E.
+  assert (KE : create_keeps_existing = false) by reflexivity. rewrite KE in E.
+  assert (Q : (match lookup a (attrs u) with Some _ => false | None => false end) = false) by (destruct (lookup a (attrs u)); reflexivity).
+  rewrite Q in E. clear Q KE.
+  assert (V : (exists c, d = Some c /\ mk_default (hp u) t k d = inr (hp u, DScal c)) \/
+              (d = None /\ k = 1 /\ mk_default (hp u) t k d = inr (hp u, DScal (type_default t))) \/
+              (d = None /\ k <> 1 /\ mk_default (hp u) t k d = inr (hp u ++ [mkcell t (repeat (type_default t) (Z.to_nat k))], DCell (length (hp u))))).
+  { unfold mk_default in *. destruct d as [c|].
+    - destruct (kind_of c) as [td|]; [|discriminate]. destruct (default_type_bad td t); [discriminate|]. left. eauto.
+    - destruct (k =? 1) eqn:K1; [right; left|right; right]; repeat split; auto; lia. }
+  pose proof Hi' as [_ [I1 _]].
+  destruct V as [[c [Ed V]]|[[Ed [K1 V]]|[Ed [K1 V]]]]; rewrite V in E; inversion E; subst s'; clear E; simpl in *;
+    pose proof (I1 a _ (lookup_put_same _ _ _)) as Ok; eexists; (split; [apply lookup_put_same|]); simpl;
+      (split; [reflexivity|]); (split; [reflexivity|]).
+  - subst d. split; [reflexivity|]. split; [|split; [|reflexivity]].
+    + intros j Hj. unfold rd. simpl. rewrite lookup_put_same. unfold new_storage in *. destruct dense.
+      * erewrite rd_dense; [|exact Ok|reflexivity|lia]. unfold znth_row, dense_init_rows, create_dense_n_elem.
+        rewrite nth_repeat_in by lia. reflexivity.
+      * erewrite rd_sparse_unset; [|exact Ok|reflexivity|reflexivity]. reflexivity.
+    + intros b j N. unfold rd. simpl. now rewrite lookup_put_other.
+  - subst d k. split; [reflexivity|]. split; [|split; [|reflexivity]].
+    + intros j Hj. unfold rd. simpl. rewrite lookup_put_same. unfold new_storage in *. destruct dense.
+      * erewrite rd_dense; [|exact Ok|reflexivity|lia]. unfold znth_row, dense_init_rows, create_dense_n_elem.
+        rewrite nth_repeat_in by lia. reflexivity.
+      * erewrite rd_sparse_unset; [|exact Ok|reflexivity|reflexivity]. reflexivity.
+    + intros b j N. unfold rd. simpl. now rewrite lookup_put_other.
+  - subst d. split.
+    { unfold default_row. simpl. rewrite nth_error_app_new. simpl. apply map_repeat. }
+    split; [|split; [|reflexivity]].
+    + intros j Hj. unfold rd. simpl. rewrite lookup_put_same. unfold new_storage in *. destruct dense.
+      * erewrite rd_dense; [|exact Ok|reflexivity|lia]. unfold znth_row, dense_init_rows, create_dense_n_elem.
+        rewrite nth_repeat_in by lia. reflexivity.
+      * erewrite rd_sparse_unset; [|exact Ok|reflexivity|reflexivity]. reflexivity.
+    + intros b j N. unfold rd. simpl. rewrite lookup_put_other by exact N.
+      destruct (lookup b (attrs u)) as [bt|] eqn:Lb; [|reflexivity]. eapply rd_attr_app.
+      destruct Hi as [_ [H1 _]]. eapply H1; eassumption.
+Qed.
+
+Lemma clear_laws s a s' :
+  inv s -> step s (ClearAttr a) = (s', OOk) ->
+  exists at_ at', lookup a (attrs s) = Some at_ /\ lookup a (attrs s') = Some at' /\
+                  default_row (hp s') at' = default_row (hp s) at_ /\
+                  (forall j, 0 <= j < sn s -> rd s' a j = Some (default_row (hp s) at_)) /\
+                  (forall b j, b <> a -> rd s' b j = rd s b j) /\ sn s' = sn s.
+Proof.
+  intros Hi E. pose proof (inv_step s (ClearAttr a) Hi I) as Hi'. rewrite E in Hi'. simpl in Hi'.
+  unfold step in E. simpl in E. apply inv_tick in Hi.
+  assert (RT : forall b j, rd (tick s) b j = rd s b j) by reflexivity.
+  assert (NT : sn (tick s) = sn s) by reflexivity.
+  assert (AT : attrs (tick s) = attrs s) by reflexivity.
+  assert (HT : hp (tick s) = hp s) by reflexivity.
+  setoid_rewrite <- RT. rewrite <- NT, <- AT, <- HT. clear RT NT AT HT. set (u := tick s) in *. clearbody u. clear s.
+  unfold do_clear_attr in E. destruct (lookup a (attrs u)) as [at_|] eqn:La; [|discriminate].
+  pose proof Hi' as [_ [I1 _]].
+  destruct (ast at_) as [m|ne st rows] eqn:St; inversion E; subst s'; clear E; simpl in *;
+    pose proof (I1 a _ (lookup_put_same _ _ _)) as Ok; exists at_; eexists; (split; [reflexivity|]);
+      (split; [apply lookup_put_same|]); (split; [reflexivity|]); (split; [|split; [|reflexivity]]).
+  - intros j Hj. unfold rd. simpl. rewrite lookup_put_same.
+    erewrite rd_sparse_unset; [|exact Ok|reflexivity|reflexivity]. reflexivity.
+  - intros b j N. unfold rd. simpl. now rewrite lookup_put_other.
+  - intros j Hj. unfold rd. simpl. rewrite lookup_put_same.
+    pose proof Ok as [_ [_ B]]. simpl in B. destruct B as [B1 _].
+    erewrite rd_dense; [|exact Ok|reflexivity|lia]. unfold znth_row, dense_clear_rows.
+    rewrite nth_repeat_in by lia. reflexivity.
+  - intros b j N. unfold rd. simpl. now rewrite lookup_put_other.
+Qed.
+
+(* growth: old entries keep their values, the new elements read the default *)
+Lemma grow_laws s added amount a at_ :
+  inv s -> 0 <= added -> amount = added -> lookup a (attrs s) = Some at_ ->
+  let s' := fst (grow s added amount) in
+  sn s' = sn s + added /\
+  (forall j, 0 <= j < sn s -> rd s' a j = rd s a j) /\
+  (forall j, sn s <= j < sn s' ->
+             match ast at_ with Sparse m => lookup j m = None | Dense _ _ _ => True end ->
+             rd s' a j = Some (default_row (hp s) at_)).
+Proof.
+  intros Hi Ha Eam La s'. pose proof (inv_grow s added amount Hi Ha Eam) as Hi'. fold s' in Hi'.
+  subst amount. unfold grow in s'. simpl in s'. subst s'. simpl.
+  pose proof Hi as [Nn [H1 _]]. pose proof (H1 _ _ La) as Ok.
+  destruct Hi' as [_ [I1 _]]. simpl in I1.
+  assert (La' : lookup a (map (fun p => (fst p, expand_attr (hp s) (clock s) added (snd p))) (attrs s))
+                = Some (expand_attr (hp s) (clock s) added at_)) by (rewrite lookup_map_vals, La; reflexivity).
+  pose proof (I1 _ _ La') as Ok'.
+  split; [reflexivity|]. unfold rd. simpl. rewrite La', La. unfold expand_attr in *.
+  destruct (ast at_) as [m|ne st rows] eqn:St.
+  - split; [reflexivity|]. intros j Hj Lk. eapply rd_sparse_unset; eauto.
+  - pose proof Ok as [_ [_ B]]. rewrite St in B. destruct B as [B1 [B2 B3]]. subst ne. split.
+    + intros j Hj. erewrite rd_dense; [|exact Ok'|reflexivity|lia]. erewrite rd_dense; [|exact Ok|exact St|lia].
+      unfold znth_row. rewrite app_nth1 by lia. reflexivity.
+    + intros j Hj _. erewrite rd_dense; [|exact Ok'|reflexivity|lia].
+      unfold znth_row, dense_expand_rows. rewrite nth_app_repeat_new by lia. reflexivity.
+Qed.
